@@ -84,7 +84,8 @@ def get_use_tree(
                     new_rename = merged_rename.get(only_name)
                     if new_rename is None:
                         continue
-                    use_dict_mod.rename_map = merged_rename
+                    # Keep the renames of the earlier USE statements of this module
+                    use_dict_mod.rename_map[only_name] = new_rename
                     use_dict[use_stmnt.mod_name] = use_dict_mod
             else:
                 use_dict[use_stmnt.mod_name] = Use(use_stmnt.mod_name)
